@@ -102,8 +102,12 @@ NAME = re.compile(r'[\w.-]+')
 
 UNSAFE_CHAR = re.compile('[\x00-\x08\x0a-\x1f\x7F",:;]')
 QUNSAFE_CHAR = re.compile('[\x00-\x08\x0a-\x1f\x7F"]')
-FOLD = re.compile(b'(\r?\n)+[ \t]')
-uFOLD = re.compile('(\r?\n)+[ \t]')
+# One or more line breaks followed by one white space character.
+# A match only starts at the first line break of a run.  Without the
+# lookbehinds the regex engine retries from every line break of a long run
+# of blank lines, which takes quadratic time.
+FOLD = re.compile(b'(?<!\n)(?:\r\n|(?<!\r)\n)(?:\r?\n)*[ \t]')
+uFOLD = re.compile('(?<!\n)(?:\r\n|(?<!\r)\n)(?:\r?\n)*[ \t]')
 NEWLINE = re.compile(r'\r?\n')
 
 
